@@ -103,7 +103,7 @@ func cmdWireCases(args []string) error {
 			ev = map[string]interface{}{"ev": "small", "panics": panics, "msg": msg}
 		case "err":
 			ev = recwire.ErrorRoundTrip(c)
-		case "txn-direct", "txn-server", "mon-monitor", "mon-monitor_cond", "mon-monitor_cond_since":
+		case "txn-direct", "txn-server", "mon-monitor", "mon-monitor_cond", "mon-monitor_cond_since", "notif-update", "notif-update2", "notif-update3":
 			if runner == nil {
 				dir, err := os.MkdirTemp("", "vh-sock")
 				if err != nil {
@@ -121,6 +121,12 @@ func cmdWireCases(args []string) error {
 			}
 			if c.Mode == "txn-direct" {
 				ev = runner.Direct(c.Tree)
+			} else if strings.HasPrefix(c.Mode, "notif-") {
+				// a panic in the client's notification handler ends this process: say which case is running
+				w.Flush()
+				_ = os.WriteFile(*out+".current", []byte(strconv.Itoa(id)), 0o644)
+				ev = runner.Notif(c.Tree, strings.TrimPrefix(c.Mode, "notif-"))
+				w.Flush()
 			} else if strings.HasPrefix(c.Mode, "mon-") {
 				w.Flush()
 				_ = os.WriteFile(*out+".current", []byte(strconv.Itoa(id)), 0o644)
@@ -140,7 +146,7 @@ func cmdWireCases(args []string) error {
 		if err := rec.Emit(ev); err != nil {
 			return err
 		}
-		if c.Mode == "txn-server" || strings.HasPrefix(c.Mode, "mon-") {
+		if c.Mode == "txn-server" || strings.HasPrefix(c.Mode, "mon-") || strings.HasPrefix(c.Mode, "notif-") {
 			w.Flush()
 		}
 	}
